@@ -83,7 +83,18 @@ func (s *Swarm) LocalAddrs() []Addr {
 func (s *Swarm) Close() error {
 	s.tellHub.CloseWithError(p2p.ErrClosed)
 	s.askHub.CloseWithError(p2p.ErrClosed)
-	return s.l.Close()
+	err := s.l.Close()
+	// close the established connections too: their loops end when the connection does
+	s.mu.RLock()
+	conns := make([]*Conn, 0, len(s.conns))
+	for _, c := range s.conns {
+		conns = append(conns, c)
+	}
+	s.mu.RUnlock()
+	for _, c := range conns {
+		c.Close()
+	}
+	return err
 }
 
 func (s *Swarm) PublicKey() PublicKey {
